@@ -232,6 +232,22 @@ def e2e(rep, tier, seed):
             meta.append((pid, "stmt", 0, [(a, b)], []))
         cases.append({"text": text, "config": [], "again": False, "lex": False})
         meta.append((pid, "unrestricted", 0, None, []))
+    # diagnostics only for selected lines: one-line items (formatting never changes the number of lines), many of them
+    # ending in blanks or too wide; whatever is reported must lie inside the selection
+    for si in range(nsyn):
+        lines = []
+        for k in range(rs.randint(6, 14)):
+            l = rs.choice(["fn  d%d( ) { }", "const D%d :u8=1;", "struct  T%d ;", "static S%d :u8=2;", "type A%d=u8;"]) % k
+            if rs.random() < 0.3:
+                l = "const W%d: &str = \"%s\";" % (k, "w" * 110)
+            lines.append(l + rs.choice(["", "", " ", "   ", "\t"]))
+        text = "\n".join(lines) + "\n"
+        a = rs.randint(1, len(lines))
+        b = min(len(lines), a + rs.randint(0, 3))
+        cases.append({"text": text, "config": [fl([(a, b)]), ["error_on_line_overflow", "true"], ["error_on_unformatted", "true"]], "again": False, "lex": False, "entries": True})
+        meta.append(("synthdiag/%d" % si, "diag", 0, [(a, b)], []))
+        cases.append({"text": text, "config": [], "again": False, "lex": False})
+        meta.append(("synthdiag/%d" % si, "unrestricted", 0, None, []))
     res = common.run_vh_pool("pool", cases, per_case_timeout=15)
     found = n = 0
     by = {}
@@ -244,6 +260,24 @@ def e2e(rep, tier, seed):
         text = full[0]["text"]
         tb = text.encode("utf-8")
         for (name, vi, _rk), (c, r, R, items) in d.items():
+            if name == "diag":
+                if isinstance(r, dict) and r.get("entries") is not None and r.get("out") is not None:
+                    n += 1
+                    (a, b) = R[0]
+                    outside = [e for e in r["entries"] if e[1] in (0, 1) and not (a <= e[0] <= b)]
+                    if outside:
+                        if rep.violation("e2e_diagnostic_outside_selection", {"pool_id": pid, "selection": R, "config": c["config"], "input": c["text"], "out": r["out"], "entries": r["entries"]},
+                                         "with lines %d-%d selected, a line-width / trailing-blank diagnostic is issued for line(s) %r of %s" % (a, b, [e[0] for e in outside], pid)):
+                            found += 1
+                    olines = r["out"].split("\n")
+                    ilines = c["text"].split("\n")
+                    # the item's own bytes: blanks after its last token are not part of it
+                    changed_outside = [k + 1 for k, (x, y) in enumerate(zip(ilines, olines)) if x.rstrip() != y.rstrip() and not (a <= k + 1 <= b)]
+                    if changed_outside or len(olines) != len(ilines):
+                        if rep.violation("e2e_unselected_item_changed:%s" % pid, {"pool_id": pid, "selection": R, "input": c["text"], "out": r["out"]},
+                                         "unselected one-line items (lines %r) of %s changed under selection %r" % (changed_outside, pid, R)):
+                            found += 1
+                continue
             if name == "unrestricted" or not pool.accepted(r):
                 continue
             n += 1
@@ -299,7 +333,7 @@ def e2e(rep, tier, seed):
                     break
     rep.coverage["e2e_runs_judged"] = n
     found += binary_selection(rep, tier, seed)
-    rep.coverage["e2e_rule"] = "pool source programs (thorough: all; quick: the 1/%d selected by the seed) x selections {one item exactly, a random window cutting through items, an empty range, a range past the end, no range, every line} and for the first two, two equivalent re-spellings (adjacent / overlapping pieces, an extra empty range, permuted): unselected top-level items byte for byte; synthetic functions of 3..6 badly formatted statements with one statement selected: every other statement line for line; through the binary: the same selection given for a path and for stdin gives the same text, and a file not named in the selection is not written; empty selections change nothing; full selection = unrestricted; equal unions give equal text" % MOD
+    rep.coverage["e2e_rule"] = "pool source programs (thorough: all; quick: the 1/%d selected by the seed) x selections {one item exactly, a random window cutting through items, an empty range, a range past the end, no range, every line} and for the first two, two equivalent re-spellings (adjacent / overlapping pieces, an extra empty range, permuted): unselected top-level items byte for byte; synthetic functions of 3..6 badly formatted statements with one statement selected: every other statement line for line; one-line items ending in blanks / too wide with a random window selected: diagnostics only for lines inside it, lines outside unchanged; through the binary: the same selection given for a path and for stdin gives the same text, and a file not named in the selection is not written; empty selections change nothing; full selection = unrestricted; equal unions give equal text" % MOD
     return found
 
 
